@@ -378,3 +378,22 @@ package sam
 //@   ensures[C06] @reported (rerr != nil && rerr != io.EOF) ==> (result0 == nil && result1 == rerr)
 //@ func Reference.Name
 //@   inline
+
+// ParseAux (C11): any text gives an Aux or an error; no index panic for a
+// short 'B' field, the element loops stay within the arrays they fill.
+//@ trusted func ext:strconv.Atoi
+//@ trusted func ext:strconv.ParseInt
+//@ trusted func ext:strconv.ParseUint
+//@ trusted func ext:strconv.ParseFloat
+//@ trusted func ext:encoding/hex.DecodedLen
+//@   ensures result == div(x, 2)
+//@ trusted func ext:encoding/hex.Decode
+//@   modifies dst[:]
+//@ trusted func ext:bytes.Split
+//@   ensures len(result) >= 1 && fresh(result)
+//@ trusted func NewAux
+
+//@ func ParseAux
+//@   mode int
+//@   props C11
+//@   decoder
